@@ -3,5 +3,5 @@ From Coq Require Extraction ExtrOcamlBasic.
 From XotV Require Import Model.Base Model.Interning Model.InternOps Model.Zipper Model.Access Model.Store Model.Manip Model.Unpretty Model.Hist.
 Extraction Language OCaml.
 Separate Extraction InternOps.x_new InternOps.x_add_namespace InternOps.x_add_prefix InternOps.x_add_name_ns
-  Manip.mrun Manip.mstep Hist.hrun Hist.hstep Store.stamp_of Zipper.locate Access.store_cursors
+  Manip.mrun Manip.mstep Hist.hrun Hist.hstep Hist.xml_id_answers Store.stamp_of Zipper.locate Access.store_cursors
   Access.attribute_nodes Access.namespace_nodes Access.children.
